@@ -333,6 +333,11 @@ def makeMachine() -> Callable[[_Core], _Client]:
 
     # Behavior-full state transitions:
     @pep614(Init.upon(_Client.stop).to(Stopped))
+    def stopBeforeStart(c: _Client, s: _Core) -> Deferred[None]:
+        # whenConnected may have been called before the service was started.
+        s.cancelConnectWaiters()
+        return succeed(None)
+
     @pep614(Stopped.upon(_Client.stop).to(Stopped))
     def immediateStop(c: _Client, s: _Core) -> Deferred[None]:
         return succeed(None)
